@@ -29,6 +29,8 @@ EXPLANATION = (
     ' R15.5 cache sentinel: the set of fields that every invalidation site clears is computed over the whole'
     ' module (list mutators clear the total only), and every test by which point / npoint / length /'
     ' _calc_lengths decide that the cache is valid must use a field of that set.'
+    " R15.6: 'unchanged by reversal' - C16's per-class reversal effects (start/end exchanged, ordered control"
+    ' points exchanged, sweep negated, on every path through reverse()) run here as well.'
 )
 TECHNIQUE = (
     "static analysis (no execution): role-based structural rules for additivity/fractions/point(t); closed forms as exact canonical forms; collinear fallback by partial evaluation; NNF of the subdivision stopping test; cache-coherence fixed point over the call graph"
